@@ -24,6 +24,7 @@ import (
 	"sort"
 	"strconv"
 	"strings"
+	"time"
 
 	. "verifharness/hlib"
 
@@ -294,6 +295,45 @@ func guard(f func() readOut) (o readOut) {
 	return f()
 }
 
+// watched runs one call into the implementation under a watchdog, so that a reader or writer
+// that no longer terminates becomes a finding with the case as replay instead of a hung
+// harness.  The calls work on in-memory data and take micro- to milliseconds; the first
+// budget is a minute, and when it expires the same call is given four more minutes before
+// it is declared hung (a slow, loaded machine must not turn into a finding).
+var hungCase string
+
+const (
+	callBudget     = 60 * time.Second
+	callLongBudget = 4 * time.Minute
+)
+
+func watched(what string, f func()) (hung bool) {
+	if hungCase != "" {
+		return true // a hung call still burns a CPU: nothing more is run
+	}
+	done := make(chan struct{})
+	go func() {
+		defer close(done)
+		f()
+	}()
+	t := time.NewTimer(callBudget)
+	select {
+	case <-done:
+		t.Stop()
+		return false
+	case <-t.C:
+	}
+	t.Reset(callLongBudget)
+	select {
+	case <-done:
+		t.Stop()
+		return false
+	case <-t.C:
+	}
+	hungCase = what
+	return true
+}
+
 func restLen(br *bufio.Reader) int {
 	n, _ := io.Copy(io.Discard, br)
 	return int(n)
@@ -442,6 +482,12 @@ func genURL(c *Ctx, method string) string {
 }
 
 func genValue(c *Ctx) string {
+	if c.Rng.Chance(6) {
+		// TEXT of RFC 2326 is any octet but controls: bytes above 0x7F (UTF-8, Latin-1, broken
+		// UTF-8), also where Go's Unicode-aware TrimSpace looks (the ends of the value)
+		return []string{"caf\xc3\xa9", "\xe6\x97\xa5\xe6\x9c\xac", "\xff\xfe\x80", "a\xc2\x85b", "\xc3\xa9", "x\xe2\x80\x83y", "\xa0x\xa0", "\xc2", "q\xe2\x80", "\xf0\x9f\x8e\xa5 cam", "realm=\"\xd0\x9a\xd0\xb0\xd0\xbc\"",
+			"end\xc2\x85", "\xc2\xa0start", "\xe1\x9a\x80ogham", "ideographic\xe3\x80\x80"}[c.Rng.Intn(15)]
+	}
 	switch c.Rng.Intn(12) {
 	case 0:
 		return strconv.Itoa(c.Rng.Intn(100000))
@@ -577,6 +623,13 @@ type item struct {
 }
 
 func safeWrite(f func() error) (errs string) {
+	if watched("writer", func() { errs = safeWrite1(f) }) {
+		return "hang"
+	}
+	return errs
+}
+
+func safeWrite1(f func() error) (errs string) {
 	defer func() {
 		if x := recover(); x != nil {
 			errs = "panic:" + fmt.Sprint(x)
@@ -907,7 +960,7 @@ func run(c *Ctx) {
 	}
 	for r := 0; r < rounds; r++ {
 		runRound(c, r)
-		if c.Replay != "" {
+		if c.Replay != "" || hungCase != "" {
 			break
 		}
 	}
@@ -1042,6 +1095,18 @@ func runRound(c *Ctx, round int) {
 			kind := []string{"recv", "recv", "read-req", "read-resp", "read-pkt"}[c.Rng.Intn(5)]
 			cases = append(cases, rcase{kind: kind, stream: s, chans: chans, d: d, restWant: -1, tag: "neg-" + tag})
 		}
+		// the body limit itself: a body of exactly the limit is read and the stream stays in step,
+		// one byte more is refused (model and implementation must agree; the specification
+		// guarantees 64 KiB only)
+		if round == 0 {
+			for _, n := range []int{1 << 20, 1<<20 + 1} {
+				body := c.Rng.Bytes(n)
+				resp := append(append([]byte(fmt.Sprintf("RTSP/1.0 200 OK\r\nCSeq: 4\r\nContent-Length: %d\r\n\r\n", n)), body...), 0x24, 0, 0, 1, 0x61)
+				cases = append(cases, rcase{kind: "read-resp", stream: resp, d: delivery{buf: 4096, mode: "s11"}, restWant: -1, tag: "limit-body"})
+				req := append(append([]byte(fmt.Sprintf("ANNOUNCE rtsp://h/p RTSP/1.0\r\nCSeq: 5\r\nContent-Length: %d\r\n\r\n", n)), body...), []byte("OPTIONS * RTSP/1.0\r\n\r\n")...)
+				cases = append(cases, rcase{kind: "recv", stream: req, chans: []int{0, 1, 2, 3}, d: delivery{buf: 65536, mode: "a"}, restWant: -1, tag: "limit-body"})
+			}
+		}
 		// the unbounded-buffering probes: one line of 1.5 MiB, one announced body of 100 MB
 		big := 3 << 19
 		if round == 0 {
@@ -1097,6 +1162,11 @@ func runRound(c *Ctx, round int) {
 		w := KV(wouts[i])
 		c.Count("write-" + it.kind)
 		implWire := Hx(it.wire)
+		if it.werr == "hang" {
+			c.Find(Finding{Kind: "oracle", Class: "writer-does-not-terminate", Case: it.wop, Impl: "no result after " + (callBudget + callLongBudget).String(), Spec: "the encoding", Detail: it.detail})
+			c.Note("run stopped: a writer of the implementation did not return")
+			return
+		}
 		if it.werr != "" {
 			implWire = "error"
 			if strings.HasPrefix(it.werr, "panic") {
@@ -1147,27 +1217,34 @@ func runRound(c *Ctx, round int) {
 		var implEvents []string
 		var implErr string
 		var ro readOut
-		switch k.kind {
-		case "recv":
-			evs, ek, pan := implRecv(k.stream, k.chans, k.d)
-			implEvents, implErr = evs, ek
-			e := "-"
-			if len(evs) > 0 {
-				e = strings.Join(evs, "/")
+		hung := watched(k.line, func() {
+			switch k.kind {
+			case "recv":
+				evs, ek, pan := implRecv(k.stream, k.chans, k.d)
+				implEvents, implErr = evs, ek
+				e := "-"
+				if len(evs) > 0 {
+					e = strings.Join(evs, "/")
+				}
+				implText = fmt.Sprintf("events=%s err=%s", e, ek)
+				if pan != "" {
+					ro.rend = pan
+				}
+			case "read-req":
+				ro = implReadReq(k.stream, k.d)
+				implText = ro.text
+			case "read-resp":
+				ro = implReadResp(k.stream, k.d)
+				implText = ro.text
+			case "read-pkt":
+				ro = implReadPkt(k.stream, k.chans, k.d)
+				implText = ro.text
 			}
-			implText = fmt.Sprintf("events=%s err=%s", e, ek)
-			if pan != "" {
-				ro.rend = pan
-			}
-		case "read-req":
-			ro = implReadReq(k.stream, k.d)
-			implText = ro.text
-		case "read-resp":
-			ro = implReadResp(k.stream, k.d)
-			implText = ro.text
-		case "read-pkt":
-			ro = implReadPkt(k.stream, k.chans, k.d)
-			implText = ro.text
+		})
+		if hung {
+			c.Find(Finding{Kind: "oracle", Class: "reader-does-not-terminate", Case: shortCase(k), Impl: "no result after " + (callBudget + callLongBudget).String(), Spec: "a message, a frame or an error", Detail: k.tag})
+			c.Note("run stopped: a call into the implementation did not return (" + k.tag + ")")
+			return
 		}
 		var alloc uint64
 		if k.implOnly {
